@@ -473,6 +473,19 @@ fn parse_moov(d: &[u8], moov: &Bx, kind: &str, m: &mut Movie, pr: &mut Probs) {
                 default_flags: c.u32(20),
             });
         }
+        // MovieExtendsHeaderBox (ISO/IEC 14496-12 8.8.2): FullBox, fragment_duration of 32 bits in
+        // version 0 and 64 bits in version 1; at most one, before the trex boxes
+        for (i, t) in mk.iter().enumerate().filter(|(_, x)| x.is(b"mehd")) {
+            let c = Ck::new(d, t, &format!("{kind}/mehd"));
+            let v = c.version();
+            c.expect(v <= 1, "version", format!("version {v}"), pr);
+            c.expect(c.flags() == 0, "flags", format!("flags {:#x}", c.flags()), pr);
+            c.expect_size(if v == 1 { 20 } else { 16 }, pr);
+            c.expect(i == 0, "position", "mehd is not the first child of mvex".into(), pr);
+        }
+        if mk.iter().filter(|x| x.is(b"mehd")).count() > 1 {
+            pr.add(Class::Mandatory, "moov/mvex/mehd/duplicated".to_string(), "more than one mehd");
+        }
         for t in mk.iter().filter(|x| !x.is(b"trex") && !x.is(b"mehd")) {
             pr.add(Class::Mandatory, format!("moov/mvex/unexpected/{}", fcc(&t.typ)), "unexpected child of mvex");
         }
